@@ -225,14 +225,11 @@ func (st *rawState) start() {
 		nt := NewNet(s)
 		st.link.OnRead = func(d dgram, n int) {
 			st.linkReads++
-			// The reference NIC judges the frame as it was on the link, cut only to what a
-			// reader offering curBuf payload bytes has to provide room for (60-byte IP
-			// header + 8-byte UDP header + payload): a connection that reads with less
-			// room and thereby loses a good frame is at fault, not the frame.
+			// The reference NIC judges the frame as it was on the link, not as cut by the
+			// connection's own link read: a connection that reads with too little room and
+			// thereby loses a good frame is at fault, not the frame. (A frame whose payload
+			// exceeds the buffer the reader offered is optional: see below.)
 			b := d.b
-			if room := 68 + st.curBuf; len(b) > room {
-				b = b[:room]
-			}
 			s.Ev("link.rx", -1, int64(n), d.tag, nil)
 			if e, ok := nicAccept(b, st.bound); ok {
 				if len(e.payload) > st.curBuf {
@@ -527,52 +524,58 @@ func (st *rawState) oracle(v *vio) {
 	}
 	// ---- read side: results equal, in order, the accepted frames. A frame whose
 	// payload did not fit the reader's buffer may be returned cut to the buffer or skipped.
-	ok := 0
-	nret := 0
-	for _, r := range st.reads {
-		if r.err != nil {
-			continue
-		}
-		nret++
-		if r.n < 0 || r.n > r.bufLen {
-			v.add("R-count", "ReadFrom returned n=%d for a %d-byte buffer", r.n, r.bufLen)
-			continue
-		}
-		matched := false
-		for ok < len(st.expect) {
-			e := st.expect[ok]
-			ok++
-			if e.bufLen > 0 {
-				ua, isUDP := r.src.(*net.UDPAddr)
-				if r.n == e.bufLen && bytes.Equal(r.data, e.payload[:e.bufLen]) && isUDP && ua.IP.Equal(e.src.IP) && ua.Port == e.src.Port {
-					matched = true
-					break
+	if st.readsAlign() {
+		goto errors // some assignment of results to frames explains everything read
+	}
+	{
+		ok := 0
+		nret := 0
+		for _, r := range st.reads {
+			if r.err != nil {
+				continue
+			}
+			nret++
+			if r.n < 0 || r.n > r.bufLen {
+				v.add("R-count", "ReadFrom returned n=%d for a %d-byte buffer", r.n, r.bufLen)
+				continue
+			}
+			matched := false
+			for ok < len(st.expect) {
+				e := st.expect[ok]
+				ok++
+				if e.bufLen > 0 {
+					ua, isUDP := r.src.(*net.UDPAddr)
+					if r.n == e.bufLen && bytes.Equal(r.data, e.payload[:e.bufLen]) && isUDP && ua.IP.Equal(e.src.IP) && ua.Port == e.src.Port {
+						matched = true
+						break
+					}
+					continue // skipped: allowed for a frame that did not fit
 				}
-				continue // skipped: allowed for a frame that did not fit
+				matched = true
+				if r.n != len(e.payload) || !bytes.Equal(r.data, e.payload) {
+					v.add("R-payload", "read %d: got %d bytes, want the %d-byte UDP payload bounded by the IP total length (padding or header bytes returned, or payload cut)", nret-1, r.n, len(e.payload))
+				}
+				ua, isUDP := r.src.(*net.UDPAddr)
+				if !isUDP || !ua.IP.Equal(e.src.IP) || ua.Port != e.src.Port {
+					v.add("R-source", "read %d: source %v, want %v", nret-1, r.src, &e.src)
+				}
+				break
 			}
-			matched = true
-			if r.n != len(e.payload) || !bytes.Equal(r.data, e.payload) {
-				v.add("R-payload", "read %d: got %d bytes, want the %d-byte UDP payload bounded by the IP total length (padding or header bytes returned, or payload cut)", nret-1, r.n, len(e.payload))
+			if !matched {
+				v.add("R-spurious", "ReadFrom returned %d bytes from %v although no (further) well-formed frame for %v had been read from the link", r.n, r.src, st.bound)
 			}
-			ua, isUDP := r.src.(*net.UDPAddr)
-			if !isUDP || !ua.IP.Equal(e.src.IP) || ua.Port != e.src.Port {
-				v.add("R-source", "read %d: source %v, want %v", nret-1, r.src, &e.src)
-			}
-			break
 		}
-		if !matched {
-			v.add("R-spurious", "ReadFrom returned %d bytes from %v although no (further) well-formed frame for %v had been read from the link", r.n, r.src, st.bound)
+		missed := 0
+		for _, e := range st.expect[ok:] {
+			if e.bufLen == 0 {
+				missed++
+			}
+		}
+		if missed > 0 {
+			v.add("R-missed", "%d well-formed frame(s) addressed to %v were read from the link but never returned by ReadFrom (%d returned)", missed, st.bound, nret)
 		}
 	}
-	missed := 0
-	for _, e := range st.expect[ok:] {
-		if e.bufLen == 0 {
-			missed++
-		}
-	}
-	if missed > 0 {
-		v.add("R-missed", "%d well-formed frame(s) addressed to %v were read from the link but never returned by ReadFrom (%d returned)", missed, st.bound, nret)
-	}
+errors:
 	// an underlying read error or close is returned as such, once each
 	injected := 0
 	for _, r := range st.reads {
@@ -591,6 +594,47 @@ func (st *rawState) oracle(v *vio) {
 			v.add("R-error-repeated", "the link reported %d read error(s) but ReadFrom returned it %d times", want, injected)
 		}
 	}
+}
+
+// readsAlign decides whether the successful ReadFrom results can be explained by
+// the accepted frames in order, where a frame that did not fit the reader's
+// buffer may have been skipped or returned cut to the buffer. (Deciding this
+// greedily is wrong: a cut frame and the next whole frame can look alike.)
+func (st *rawState) readsAlign() bool {
+	var rs []rawRead
+	for _, r := range st.reads {
+		if r.err == nil {
+			if r.n < 0 || r.n > r.bufLen {
+				return false
+			}
+			rs = append(rs, r)
+		}
+	}
+	es := st.expect
+	same := func(r rawRead, e rawExpect, want []byte) bool {
+		ua, ok := r.src.(*net.UDPAddr)
+		return ok && ua.IP.Equal(e.src.IP) && ua.Port == e.src.Port && r.n == len(want) && bytes.Equal(r.data, want)
+	}
+	// f[i][j]: reads i.. can be explained by frames j..
+	f := make([][]bool, len(rs)+1)
+	for i := range f {
+		f[i] = make([]bool, len(es)+1)
+	}
+	for i := len(rs); i >= 0; i-- {
+		for j := len(es); j >= 0; j-- {
+			switch {
+			case i == len(rs):
+				f[i][j] = j == len(es) || (es[j].bufLen > 0 && f[i][j+1])
+			case j == len(es):
+				f[i][j] = false
+			case es[j].bufLen > 0:
+				f[i][j] = f[i][j+1] || (same(rs[i], es[j], es[j].payload[:es[j].bufLen]) && f[i+1][j+1])
+			default:
+				f[i][j] = same(rs[i], es[j], es[j].payload) && f[i+1][j+1]
+			}
+		}
+	}
+	return f[0][0]
 }
 
 func isClosedErr(err error) bool {
